@@ -938,4 +938,187 @@ example :
     callKey { args := [.cell (.int 1)], kw := [] } ≠ callKey { args := [], kw := [("a", .cell (.int 1))] } := by
   decide +kernel
 
+/-! ## round h6: every exclusion only for the decorator that causes it; `kwargs_support` inside a stack -/
+
+/-- **Transparency of every stack, each exclusion only for the decorator that causes it.**  A valid call returns through
+the stack what `f` returns; an undeclared keyword is excluded only when `kwargs_support` is in the stack (K1), a keyword
+called `axis` only when `loops` is (K4), an int ndarray argument only when `pd2np` is (K6).  So `cache(f)(np.array([1,2]))`,
+`try_value(cache(f))(1, axis=5)`, `try_back(f)(1, zz=2)` for `f(a, **kw)` are covered.  Subsumes `stack_transparent` and
+`stack_transparent_without_kwargs_support`. -/
+theorem stack_transparent_sharp (s : Sig) (body : PDict → Res Val) :
+    ∀ (chain : List (Cls × PDict)) (c : Call) (v : Val),
+      (Cls.kwargsSupport ∈ classes chain → ∀ p ∈ c.kw, p.1 ∈ s.params) →
+      (Cls.loops ∈ classes chain → ∀ p ∈ c.kw, p.1 ≠ "axis") →
+      (Cls.pd2np ∈ classes chain → c.hasIntArr = false) →
+      applyFn s body c = .ok v → evalChain s body chain c = .ok v
+  | [], c, v, _, _, _, h => by simpa [evalChain] using h
+  | (cls, p) :: rest, c, v, hd, hax, hia, h => by
+      have hd' : Cls.kwargsSupport ∈ classes rest → ∀ p ∈ c.kw, p.1 ∈ s.params :=
+        fun hm => hd (by simp [classes] at hm ⊢; exact Or.inr hm)
+      have hax' : Cls.loops ∈ classes rest → ∀ p ∈ c.kw, p.1 ≠ "axis" :=
+        fun hm => hax (by simp [classes] at hm ⊢; exact Or.inr hm)
+      have hia' : Cls.pd2np ∈ classes rest → c.hasIntArr = false :=
+        fun hm => hia (by simp [classes] at hm ⊢; exact Or.inr hm)
+      have ih := stack_transparent_sharp s body rest c v hd' hax' hia' h
+      cases cls with
+      | tryValue => simp [evalChain, ih]
+      | tryBack => simp [evalChain, ih]
+      | cache => simp [evalChain, ih]
+      | kwargsSupport =>
+        have hdd := hd (by simp [classes])
+        have hk : kwFilter s c = c := by
+          cases c with
+          | mk args kw =>
+            simp only [kwFilter, Call.mk.injEq, true_and]
+            apply List.filter_eq_self.2
+            intro q hq
+            simpa using hdd q hq
+        simp [evalChain, hk, ih]
+      | loops =>
+        have haa := hax (by simp [classes])
+        have hl : evalChain s body rest (loopsCall s c) = .ok v :=
+          stack_transparent_sharp s body rest (loopsCall s c) v
+            (fun hm q hq => hd' hm q (loopsCall_kw_sub s c q hq))
+            (fun hm q hq => hax' hm q (loopsCall_kw_sub s c q hq))
+            (fun hm => loopsCall_hasIntArr s c (hia' hm))
+            (by simpa [applyFn, loopsCall_bind s c haa] using h)
+        simp [evalChain, hl]
+      | pd2np =>
+        have hii := hia (by simp [classes])
+        have hp : pd2npCall (excOf p) c = c := pd2npCall_of_no _ c hii
+        simp [evalChain, hp, ih]
+
+/-- … and a stack without `try_*` raises what `f` raises, under the same per-decorator conditions (a function with `**kw`
+called with extra keywords through `cache` / `loops` / `pd2np` included) -/
+theorem stack_transparent_raise_sharp (s : Sig) (body : PDict → Res Val) :
+    ∀ (chain : List (Cls × PDict)) (c : Call),
+      (Cls.kwargsSupport ∈ classes chain → ∀ p ∈ c.kw, p.1 ∈ s.params) →
+      (Cls.loops ∈ classes chain → ∀ p ∈ c.kw, p.1 ≠ "axis") →
+      (Cls.pd2np ∈ classes chain → c.hasIntArr = false) →
+      (∀ w ∈ chain, w.1 ≠ .tryValue ∧ w.1 ≠ .tryBack) → evalChain s body chain c = applyFn s body c
+  | [], c, _, _, _, _ => by simp [evalChain]
+  | (cls, p) :: rest, c, hd, hax, hia, hc => by
+      have hr : ∀ w ∈ rest, w.1 ≠ .tryValue ∧ w.1 ≠ .tryBack := fun w hw => hc w (by simp [hw])
+      have hd' : Cls.kwargsSupport ∈ classes rest → ∀ p ∈ c.kw, p.1 ∈ s.params :=
+        fun hm => hd (by simp [classes] at hm ⊢; exact Or.inr hm)
+      have hax' : Cls.loops ∈ classes rest → ∀ p ∈ c.kw, p.1 ≠ "axis" :=
+        fun hm => hax (by simp [classes] at hm ⊢; exact Or.inr hm)
+      have hia' : Cls.pd2np ∈ classes rest → c.hasIntArr = false :=
+        fun hm => hia (by simp [classes] at hm ⊢; exact Or.inr hm)
+      have ih := stack_transparent_raise_sharp s body rest c hd' hax' hia' hr
+      have hne := hc (cls, p) (by simp)
+      cases cls with
+      | tryValue => exact absurd rfl hne.1
+      | tryBack => exact absurd rfl hne.2
+      | cache => simp [evalChain, ih]
+      | kwargsSupport =>
+        have hdd := hd (by simp [classes])
+        have hk : kwFilter s c = c := by
+          cases c with
+          | mk args kw =>
+            simp only [kwFilter, Call.mk.injEq, true_and]
+            apply List.filter_eq_self.2
+            intro q hq
+            simpa using hdd q hq
+        simp [evalChain, hk, ih]
+      | loops =>
+        have haa := hax (by simp [classes])
+        have hl : evalChain s body rest (loopsCall s c) = applyFn s body c := by
+          rw [stack_transparent_raise_sharp s body rest (loopsCall s c)
+            (fun hm q hq => hd' hm q (loopsCall_kw_sub s c q hq))
+            (fun hm q hq => hax' hm q (loopsCall_kw_sub s c q hq))
+            (fun hm => loopsCall_hasIntArr s c (hia' hm)) hr]
+          simp [applyFn, loopsCall_bind s c haa]
+        simp [evalChain, hl]
+      | pd2np =>
+        have hii := hia (by simp [classes])
+        have hp : pd2npCall (excOf p) c = c := pd2npCall_of_no _ c hii
+        simp [evalChain, hp, ih]
+
+/-- **`kwargs_support` anywhere in a stack** (clause "kwargs_support makes a function without `**kwargs` ignore exactly the
+keywords it does not declare", at the level of results and not only for the one-layer stack of `kwargs_support_result`): a
+valid call of `f` PLUS any undeclared keywords `junk`, through ANY stack that contains `kwargs_support`, returns what `f`
+returns on the valid call.  `loops` in the stack: no keyword called `axis` (K4); `pd2np` in the stack: no int ndarray (K6).
+`try_value(kwargs_support(f))(1, zz=2)`, `kwargs_support(cache(f))(1, zz=2)`, `cache(kwargs_support(f))(…)` are instances. -/
+theorem kwargs_support_in_stack (s : Sig) (hv : s.varkw = none) (body : PDict → Res Val) (junk : PDict)
+    (hj : ∀ p ∈ junk, p.1 ∉ s.params) :
+    ∀ (chain : List (Cls × PDict)) (c : Call) (v : Val),
+      Cls.kwargsSupport ∈ classes chain →
+      (Cls.loops ∈ classes chain → ∀ p ∈ c.kw ++ junk, p.1 ≠ "axis") →
+      (Cls.pd2np ∈ classes chain → ({ c with kw := c.kw ++ junk } : Call).hasIntArr = false) →
+      applyFn s body c = .ok v → evalChain s body chain { c with kw := c.kw ++ junk } = .ok v
+  | [], _, _, hk, _, _, _ => by simp [classes] at hk
+  | (cls, p) :: rest, c, v, hk, hax, hia, h => by
+      have hax' : Cls.loops ∈ classes rest → ∀ p ∈ c.kw ++ junk, p.1 ≠ "axis" :=
+        fun hm => hax (by simp [classes] at hm ⊢; exact Or.inr hm)
+      have hia' : Cls.pd2np ∈ classes rest → ({ c with kw := c.kw ++ junk } : Call).hasIntArr = false :=
+        fun hm => hia (by simp [classes] at hm ⊢; exact Or.inr hm)
+      obtain ⟨b, hb⟩ : ∃ b, bindRef s c = .ok b := by
+        cases hb : bindRef s c with
+        | error e => simp [applyFn, hb] at h
+        | ok b => exact ⟨b, rfl⟩
+      have hdecl : ∀ p ∈ c.kw, p.1 ∈ s.params := by
+        have := kwargs_support_transparent s hv c b hb
+        intro p hp
+        rw [← this] at hp
+        simp only [kwFilter, List.mem_filter] at hp
+        simpa using hp.2
+      cases cls with
+      | kwargsSupport =>
+        simp only [evalChain]
+        rw [(kwargs_support_ignores_exactly s c junk hj).1, kwargs_support_transparent s hv c b hb]
+        exact stack_transparent_sharp s body rest c v (fun _ => hdecl)
+          (fun hm q hq => hax' hm q (by simp [hq]))
+          (fun hm => hasIntArr_append_left c junk (hia' hm)) h
+      | tryValue =>
+        have hk' : Cls.kwargsSupport ∈ classes rest := by simpa [classes] using hk
+        simp [evalChain, kwargs_support_in_stack s hv body junk hj rest c v hk' hax' hia' h]
+      | tryBack =>
+        have hk' : Cls.kwargsSupport ∈ classes rest := by simpa [classes] using hk
+        simp [evalChain, kwargs_support_in_stack s hv body junk hj rest c v hk' hax' hia' h]
+      | cache =>
+        have hk' : Cls.kwargsSupport ∈ classes rest := by simpa [classes] using hk
+        simp [evalChain, kwargs_support_in_stack s hv body junk hj rest c v hk' hax' hia' h]
+      | pd2np =>
+        have hk' : Cls.kwargsSupport ∈ classes rest := by simpa [classes] using hk
+        have hii := hia (by simp [classes])
+        simp only [evalChain, pd2npCall_of_no _ _ hii]
+        exact kwargs_support_in_stack s hv body junk hj rest c v hk' hax' hia' h
+      | loops =>
+        have hk' : Cls.kwargsSupport ∈ classes rest := by simpa [classes] using hk
+        have haa := hax (by simp [classes])
+        have haxk : ∀ p ∈ c.kw, p.1 ≠ "axis" := fun p hp => haa p (by simp [hp])
+        simp only [evalChain]
+        rw [loopsCall_append s c junk hj haa]
+        have := kwargs_support_in_stack s hv body junk hj rest (loopsCall s c) v hk'
+          (fun hm q hq => by
+            rcases List.mem_append.1 hq with hq | hq
+            · exact haa q (by simp [loopsCall_kw_sub s c q hq])
+            · exact haa q (by simp [hq]))
+          (fun hm => by
+            have := loopsCall_hasIntArr s _ (hia' hm)
+            rw [loopsCall_append s c junk hj haa] at this
+            exact this)
+          (by simpa [applyFn, loopsCall_bind s c haxk] using h)
+        exact this
+
+
+/-- non-vacuity: `try_value(kwargs_support(cache(f)))(1, b=5, zz=9)` for `f(a, b=2)`; and the converse witness: the same stack
+WITHOUT `kwargs_support` raises python's TypeError (here turned into the fallback by `try_value`; bare: `.error .type`) -/
+example :
+    let s : Sig := { params := ["a", "b"], defaults := [.cell (.int 2)], varargs := none, varkw := none }
+    let c : Call := { args := [.cell (.int 1)], kw := [("b", .cell (.int 5)), ("zz", .cell (.int 9))] }
+    evalChain s recBody [(.tryValue, []), (.kwargsSupport, []), (.cache, [])] c =
+      .ok (.dict [("a", .cell (.int 1)), ("b", .cell (.int 5))]) ∧
+    evalChain s recBody [(.cache, []), (.loops, [])] c = .error .type := by
+  decide
+
+/-- non-vacuity of the sharp form: an int ndarray through `try_value(cache(f))`, a keyword `axis` through `cache`, an extra
+keyword of a `**kw` function through `try_back` -/
+example :
+    let s : Sig := { params := ["a", "axis"], defaults := [.cell (.int 0)], varargs := none, varkw := some "kw" }
+    evalChain s recBody [(.tryValue, []), (.cache, [])] { args := [.cell (.str "~arr:1,2")], kw := [("axis", .cell (.int 5)), ("zz", .cell (.int 1))] } =
+      applyFn s recBody { args := [.cell (.str "~arr:1,2")], kw := [("axis", .cell (.int 5)), ("zz", .cell (.int 1))] } := by
+  decide +kernel
+
 end Pyg.Props.C18
